@@ -9,9 +9,14 @@ namespace Branches
 /-- an insertion-ordered dictionary `new index ↦ branches` -/
 abbrev Groups := List (Int × List (List Int))
 
-/-- `d.setdefault(k, []); d[k].append(b)` -/
+/-- `d[k]` (`none` = the key is absent) -/
+def glookup (d : Groups) (k : Int) : Option (List (List Int)) := (d.find? (fun p => p.1 = k)).map (·.2)
+
+/-- `d.setdefault(k, []); d[k].append(b)`: an existing key keeps its place, a new key goes to the end -/
 def addBranch (d : Groups) (k : Int) (b : List Int) : Groups :=
-  if d.any (fun p => p.1 == k) then d.map (fun p => if p.1 = k then (p.1, p.2 ++ [b]) else p) else d ++ [(k, [b])]
+  match glookup d k with
+  | some x => d.map (fun p => if p.1 = k then (k, x ++ [b]) else p)
+  | none => d ++ [(k, [b])]
 
 /-- the loop `for br in branches`: `none` = IndexError (the first node of a branch is not a node of the branch tree) -/
 def fileBranches (root : Int) (mapping : List Int) : List (List Int) → Groups → Option Groups
